@@ -71,6 +71,22 @@ func backwardSliceOpt(v ssa.Value, direct bool, visit func(ssa.Value) bool) bool
 			}
 			return false
 		}
+		if ms, ok := v.(*ssa.MakeSlice); ok {
+			// a pre-sized slice filled by index: sl[i] = x
+			if refs := ms.Referrers(); refs != nil {
+				for _, r := range *refs {
+					ia, ok := r.(*ssa.IndexAddr)
+					if !ok || ia.X != ssa.Value(ms) || ia.Referrers() == nil {
+						continue
+					}
+					for _, r2 := range *ia.Referrers() {
+						if st, ok := r2.(*ssa.Store); ok && st.Addr == ssa.Value(ia) && rec(st.Val, depth+1) {
+							return true
+						}
+					}
+				}
+			}
+		}
 		if nx, ok := v.(*ssa.Next); ok {
 			if rg, ok := nx.Iter.(*ssa.Range); ok {
 				return rec(rg.X, depth+1)
